@@ -1,6 +1,6 @@
 /-
 Helper lemmas for C06, front end: Python's numeric tokens (digit groups with `_` separators)
-and `Parser._parse_float_constant`, which re-reads the text of a float literal.
+and the repaired `_parse_constant` (`parseFloatRepaired`), which re-reads the text of a float literal.
 -/
 import Fpy.Proof.Literal
 namespace Fpy.Lit
@@ -330,14 +330,14 @@ theorem expDigits_exText (t : PyFloat) (h : t.WF) (hl : FloatWithin t) :
 theorem rat_of_den_one (v : Rat) (h : v.den = 1) : ((v.num : Int) : Rat) = v := by
   apply Rat.ext <;> simp [h]
 
-/-- **the front end on a float token**: its value is the positional value of the spelling -/
-theorem frontValue_float (E : Char) (hE : E = 'e' ∨ E = 'E') (t : PyFloat) (h : t.WF) (hl : FloatWithin t) :
-    frontValue (.num (t.render E)) = .ok (.rat t.value) := by
+/-- **the repaired front end on a float token**: its value is the positional value of the spelling -/
+theorem frontValueRepaired_float (E : Char) (hE : E = 'e' ∨ E = 'E') (t : PyFloat) (h : t.WF) (hl : FloatWithin t) :
+    frontValueRepaired (t.render E) = .ok (.rat t.value) := by
   have hpn := pyNumber_of_decimal (pyDecimal_float E hE t h)
   have hdec : decnum (floatText t.ip.digits t.fp.digits (exText t.ex)) = .ok t.value := by
     rw [floatText_eq, decnum_of_render _ (floatSci_wf t h), floatSci_within t hl, floatSci_value]; rfl
-  unfold frontValue parseExpr
-  simp only [hpn, bind, Except.bind, parseConstant, parseFloat, expDigits_exText t h hl, ↓reduceIte, hdec]
+  unfold frontValueRepaired
+  simp only [hpn, bind, Except.bind, parseFloatRepaired, expDigits_exText t h hl, ↓reduceIte, hdec]
   by_cases hden : t.value.den = 1
   · simp only [hden, beq_self_eq_true, ↓reduceIte, Node.evalReal, Node.asReal, Node.asRational, Except.map,
       rat_of_den_one _ hden]
